@@ -12,7 +12,7 @@ import json
 import os
 import re
 
-from .. import cg, core, emit, guards, vt
+from .. import inline, cg, core, emit, guards, vt
 from . import c15, c17, c08
 
 
@@ -156,7 +156,8 @@ def run(ctx, rep):
 def b1(ctx, rep, T):
     n = 0
     for be, (struct, file) in emit.BACKENDS.items():
-        fns = [g for g in ctx.astq['functions'] if g['file'].endswith(file) and g['sites']]
+        # loops over small literal tables are unrolled (data-driven emission = the same statements written out)
+        fns = [inline.view(ctx, g, depth=0) for g in ctx.astq['functions'] if g['file'].endswith(file) and g['sites']]
         first = {}
         for f in fns:
             nets, problems = function_nets(ctx, T, f, {})
